@@ -47,7 +47,7 @@ def structure_jobs(tier):
 
 
 def external_jobs(tier):
-    names = ["1ehz-assembly-1.cif", "1E7K_1_C.cif", "1A1T_1_B.cif", "4WTI_1_T-P.cif", "488d.pdb"] if tier == "quick" else G.SMALL + G.MEDIUM + G.LARGE
+    names = ["1ehz-assembly-1.cif", "1E7K_1_C.cif", "1A1T_1_B.cif", "4WTI_1_T-P.cif", "488d.pdb", "1JJP.cif", "184D.cif"] if tier == "quick" else G.SMALL + G.MEDIUM + G.LARGE
     jobs = [{"id": "conflicts@" + n, "kind": "external", "path": os.path.join(G.TESTS, n)} for n in names if os.path.exists(os.path.join(G.TESTS, n))]
     if os.path.exists(os.path.join(G.TESTS, "184D-fr3d.txt")):
         jobs.append({"id": "fr3d@184D.cif", "kind": "fr3d", "path": os.path.join(G.TESTS, "184D.cif"), "external": os.path.join(G.TESTS, "184D-fr3d.txt")})
